@@ -232,7 +232,9 @@ class CFG:
         dq = deque()
         adj = self.succ if forward else self.pred
         for s in srcs:
-            if include_src and s not in avoid:
+            if include_src:
+                if s in avoid:
+                    continue  # a source that is itself avoided contributes nothing
                 seen.add(s)
             dq.append(s)
         started = set()
@@ -268,38 +270,58 @@ class CFG:
         return n in self.reachable(n)
 
     def event_words(self, label: Callable[[Node], str], start: Optional[int] = None,
-                    ends: Optional[Set[int]] = None, max_visits: int = 2, limit: int = 20000) -> Set[str]:
-        """Set of event words over all paths start -> ends; each node visited at most max_visits
-        per path (loops unrolled max_visits-1 times).  `label` returns '' for non-events."""
+                    ends: Optional[Set[int]] = None, max_visits: int = 2, limit: int = 200000,
+                    correlate: bool = False) -> Set[str]:
+        """Set of event words over all paths start -> ends; each loop head entered at most max_visits
+        times per path.  `label` returns '' for non-events.  With correlate=True two `if` nodes whose
+        tests are call-free and textually identical take the same branch on one path unless a name
+        used by the test was assigned in between (removes the classic infeasible-path false alarm)."""
         start = self.entry if start is None else start
         ends = {self.exit_return} if ends is None else ends
         words: Set[str] = set()
-        # DFS with memo on (node, visit-count vector) is expensive; the functions this is applied
-        # to have few branches.  Use iterative DFS with explicit stacks and a state budget.
-        stack = [(start, "", {})]
+        stack = [(start, "", (), ())]
         seen_states = set()
         budget = limit
         while stack:
-            n, w, visits = stack.pop()
+            n, w, visits, decisions = stack.pop()
             budget -= 1
             if budget < 0:
                 raise AnalysisError("event_words: path budget exceeded")
-            lab = label(self.nodes[n])
+            node = self.nodes[n]
+            lab = label(node)
             if lab:
                 w = w + lab
             if n in ends:
                 words.add(w)
                 continue
-            key = (n, w, tuple(sorted(visits.items())))
+            key = (n, w, visits, decisions)
             if key in seen_states:
                 continue
             seen_states.add(key)
-            for b, _lab in self.succ[n]:
-                c = visits.get(b, 0)
+            dec = dict(decisions)
+            if correlate and node.kind == "stmt" and isinstance(node.stmt, (ast.Assign, ast.AugAssign, ast.AnnAssign)):
+                tg = node.stmt.targets if isinstance(node.stmt, ast.Assign) else [node.stmt.target]
+                written = {norm(t) for t in tg}
+                for t in list(dec):
+                    if any(wr and wr in t for wr in written):
+                        del dec[t]
+            forced = None
+            ttxt = None
+            if correlate and node.kind == "if" and node.expr is not None and not any(isinstance(x, ast.Call) for x in ast.walk(node.expr)):
+                ttxt = norm(node.expr)
+                forced = dec.get(ttxt)
+            vis = dict(visits)
+            for b, elab in self.succ[n]:
+                if forced is not None and elab in ("true", "false") and elab != forced:
+                    continue
+                c = vis.get(b, 0)
                 if c >= max_visits:
                     continue
-                v2 = visits if not self._is_loop_head(b) else {**visits, b: c + 1}
-                stack.append((b, w, v2))
+                v2 = visits if not self._is_loop_head(b) else tuple(sorted({**vis, b: c + 1}.items()))
+                d2 = dec
+                if ttxt is not None and elab in ("true", "false"):
+                    d2 = {**dec, ttxt: elab}
+                stack.append((b, w, v2, tuple(sorted(d2.items()))))
         return words
 
     def _is_loop_head(self, n):
